@@ -89,6 +89,9 @@ def _configs(R):
         ("NewtonSchulz[gamma=1]:structured", lambda: S.NewtonSchulzPseudoinverse(gamma=1.0, max_iter=5, tol=1e-9), "compute", "pinv_tall_structured"),
         ("QGMRES[left_lu]:structured", lambda: S.QGMRESSolver(tol=1e-10, preconditioner="left_lu"), "solve", "linsys_structured"),
         ("QGMRES[none]:structured", lambda: S.QGMRESSolver(tol=1e-10), "solve", "linsys_structured"),
+        # the variant methods called DIRECTLY (compute() wraps them and restores what it touched): row variant on wide, column variant on tall
+        ("RSP[block=6]:variant_methods", lambda: S.RandomizedSketchProjectPseudoinverse(block_size=6, max_iter=5, tol=1e-9), "auto_variant", "pinv_any_fullrank"),
+        ("RSP[block=3,spd]:variant_methods", lambda: S.RandomizedSketchProjectPseudoinverse(block_size=3, max_iter=5, tol=1e-9, column_solver="spd"), "auto_variant", "pinv_any_fullrank"),
     ]
 
 
@@ -175,7 +178,7 @@ def _state_digest(obj):
 def cases(tier, seed):
     out = []
     npool = 4 if tier == "quick" else 5
-    ncfg = 23
+    ncfg = 25
     for ci in range(ncfg):
         seqs = list(itertools.product(range(npool), repeat=3))
         out.append({"kind": "history", "cls": "history", "cfg": ci, "npool": npool, "seqs": [list(s) for s in seqs], "seed": seed,
@@ -316,6 +319,8 @@ def _call(obj, method, prob, S):
     before = [battery.arg_digest(a) for a in args]
     poison_heap()
     np.random.seed(S)
+    if method == "auto_variant":
+        method = "compute_row_variant" if args[0].shape[0] < args[0].shape[1] else "compute_column_variant"
     res = getattr(obj, method)(*args)
     return res, [battery.arg_digest(a) for a in args] == before
 
